@@ -5,6 +5,7 @@ CONSTANTS
   ClearChoices = {TRUE, FALSE}
   Installs = {TRUE, FALSE}
   ResetsResult = TRUE
+  LateIgnored = TRUE
 CONSTRAINT ExportC
 INVARIANT ResultRight
 INVARIANT Guards
